@@ -517,3 +517,103 @@ Example band_history_grows_example :
   hist_perm (decompose_gen false exq_B (Model.Banded.compact exq_B) (mat_new 6 1 zero) (repeat 0 6)) = [1; 2; 3; 4; 5; 0].
 Proof. exact exq_history_grows. Qed.
 
+(* shape of L under partial pivoting: row r holds c_r <= r multipliers, of the consecutive stages r - c_r .. r-1 (any arithmetic; pure bookkeeping of the exchange record) *)
+Theorem band_history_shape : forall (A : Arith) (n m1 : nat) (al : matrix A) (index : list nat) (r : nat),
+  (forall k, k < n -> k + 1 <= nth k index 0 /\ nth k index 0 <= fwin n m1 k) -> r < n ->
+  let h := fhist n m1 al index n r in
+  length h <= r /\ forall t, t < length h -> snd (nth t h (zero, 0)) = r - length h + t.
+Proof. intros A n m1 al index r. exact (band_history_shape_lemma n m1 al index r). Qed.
+Check band_history_shape : forall (A : Arith) (n m1 : nat) (al : matrix A) (index : list nat) (r : nat),
+  (forall k, k < n -> k + 1 <= nth k index 0 /\ nth k index 0 <= fwin n m1 k) -> r < n ->
+  let h := fhist n m1 al index n r in
+  length h <= r /\ forall t, t < length h -> snd (nth t h (zero, 0)) = r - length h + t.
+Print Assumptions band_history_shape.
+Example band_history_shape_nonvacuous :
+  (forall k, k < 3 -> k + 1 <= nth k exb_index 0 /\ nth k exb_index 0 <= fwin 3 1 k) /\
+  map (fun r => map snd (fhist (A := AFlx) 3 1 exb_al exb_index 3 r)) [0; 1; 2] = [[]; [0]; [1]].
+Proof. split; [|reflexivity]. intros [|[|[|k]]] Hk; cbn; lia. Qed.
+
+(* the band LU WITHOUT exchanges (index[k] = k+1): L_(r,j) = al[j][r-j-1], r - m1 <= j < r, and the constant depends on the bandwidth only: gam(min r m1) <= gam(m1) *)
+Theorem band_lu_noswap_backward_error : forall (u : R), (0 <= u < 1)%R ->
+  forall (fadd fsub fmul fdiv : R -> R -> R),
+  (forall x y : R, exists d : R, (Rabs d <= u)%R /\ fsub x y = ((x - y) * (1 + d))%R) ->
+  (forall x y : R, exists d : R, (Rabs d <= u)%R /\ fmul x y = (x * y * (1 + d))%R) ->
+  (forall x y : R, y <> 0%R -> exists d : R, (Rabs d <= u)%R /\ fdiv x y = (x / y * (1 + d))%R) ->
+  forall (n mm m1 : nat) (au0 al0 : matrix (ARm fadd fsub fmul fdiv)) (index0 : list nat) (d0 : R)
+         (au al : matrix (ARm fadd fsub fmul fdiv)) (index : list nat) (d : R) (lf : nat),
+  cols au0 = mm -> cols al0 = m1 -> 1 <= mm -> m1 <= n -> (INR m1 * u < 1)%R ->
+  for_ 0 n (dec_step (A := ARm fadd fsub fmul fdiv) false n mm) (au0, al0, index0, d0, m1) = Ok (au, al, index, d, lf) ->
+  (forall k, k < n -> mat_at (A := ARm fadd fsub fmul fdiv) au mm k 0 <> 0%R) ->
+  (forall k, k < n -> nth k index 0 = k + 1) ->
+  forall r, r < n ->
+    (forall s, s < mm ->
+       exists (dd : R) (dL : nat -> R),
+         (Rabs dd <= gam u (Nat.min r m1))%R /\
+         (forall t, t < Nat.min r m1 ->
+            (Rabs (dL t) <= gam u (Nat.min r m1)
+                            * Rabs (mat_at (A := ARm fadd fsub fmul fdiv) al m1 (r - Nat.min r m1 + t) (r - (r - Nat.min r m1 + t) - 1)))%R) /\
+         ((1 + dd) * mat_at (A := ARm fadd fsub fmul fdiv) au mm r s
+          + Rsum (Nat.min r m1)
+              (fun t => (mat_at (A := ARm fadd fsub fmul fdiv) al m1 (r - Nat.min r m1 + t) (r - (r - Nat.min r m1 + t) - 1) + dL t)
+                        * Uc fadd fsub fmul fdiv au mm (r - Nat.min r m1 + t) (r + s))
+          = D0 (A := ARm fadd fsub fmul fdiv) mm m1 au0 r (r + s))%R) /\
+    (forall t, t < Nat.min r m1 ->
+       exists dL : nat -> R,
+         (forall t', t' <= t ->
+            (Rabs (dL t') <= gam u (t + 1)
+                             * Rabs (mat_at (A := ARm fadd fsub fmul fdiv) al m1 (r - Nat.min r m1 + t') (r - (r - Nat.min r m1 + t') - 1)))%R) /\
+         (Rsum (S t)
+            (fun t' => (mat_at (A := ARm fadd fsub fmul fdiv) al m1 (r - Nat.min r m1 + t') (r - (r - Nat.min r m1 + t') - 1) + dL t')
+                       * Uc fadd fsub fmul fdiv au mm (r - Nat.min r m1 + t') (r - Nat.min r m1 + t))
+          = D0 (A := ARm fadd fsub fmul fdiv) mm m1 au0 r (r - Nat.min r m1 + t))%R).
+Proof. intros u Hu fadd fsub fmul fdiv Hs Hm Hd n mm m1 au0 al0 index0 d0 au al index d lf. exact (band_lu_noswap_backward_error_lemma u Hu fadd fsub fmul fdiv Hs Hm Hd n mm m1 au0 al0 index0 d0 au al index d lf). Qed.
+Check band_lu_noswap_backward_error : forall (u : R), (0 <= u < 1)%R ->
+  forall (fadd fsub fmul fdiv : R -> R -> R),
+  (forall x y : R, exists d : R, (Rabs d <= u)%R /\ fsub x y = ((x - y) * (1 + d))%R) ->
+  (forall x y : R, exists d : R, (Rabs d <= u)%R /\ fmul x y = (x * y * (1 + d))%R) ->
+  (forall x y : R, y <> 0%R -> exists d : R, (Rabs d <= u)%R /\ fdiv x y = (x / y * (1 + d))%R) ->
+  forall (n mm m1 : nat) (au0 al0 : matrix (ARm fadd fsub fmul fdiv)) (index0 : list nat) (d0 : R)
+         (au al : matrix (ARm fadd fsub fmul fdiv)) (index : list nat) (d : R) (lf : nat),
+  cols au0 = mm -> cols al0 = m1 -> 1 <= mm -> m1 <= n -> (INR m1 * u < 1)%R ->
+  for_ 0 n (dec_step (A := ARm fadd fsub fmul fdiv) false n mm) (au0, al0, index0, d0, m1) = Ok (au, al, index, d, lf) ->
+  (forall k, k < n -> mat_at (A := ARm fadd fsub fmul fdiv) au mm k 0 <> 0%R) ->
+  (forall k, k < n -> nth k index 0 = k + 1) ->
+  forall r, r < n ->
+    (forall s, s < mm ->
+       exists (dd : R) (dL : nat -> R),
+         (Rabs dd <= gam u (Nat.min r m1))%R /\
+         (forall t, t < Nat.min r m1 ->
+            (Rabs (dL t) <= gam u (Nat.min r m1)
+                            * Rabs (mat_at (A := ARm fadd fsub fmul fdiv) al m1 (r - Nat.min r m1 + t) (r - (r - Nat.min r m1 + t) - 1)))%R) /\
+         ((1 + dd) * mat_at (A := ARm fadd fsub fmul fdiv) au mm r s
+          + Rsum (Nat.min r m1)
+              (fun t => (mat_at (A := ARm fadd fsub fmul fdiv) al m1 (r - Nat.min r m1 + t) (r - (r - Nat.min r m1 + t) - 1) + dL t)
+                        * Uc fadd fsub fmul fdiv au mm (r - Nat.min r m1 + t) (r + s))
+          = D0 (A := ARm fadd fsub fmul fdiv) mm m1 au0 r (r + s))%R) /\
+    (forall t, t < Nat.min r m1 ->
+       exists dL : nat -> R,
+         (forall t', t' <= t ->
+            (Rabs (dL t') <= gam u (t + 1)
+                             * Rabs (mat_at (A := ARm fadd fsub fmul fdiv) al m1 (r - Nat.min r m1 + t') (r - (r - Nat.min r m1 + t') - 1)))%R) /\
+         (Rsum (S t)
+            (fun t' => (mat_at (A := ARm fadd fsub fmul fdiv) al m1 (r - Nat.min r m1 + t') (r - (r - Nat.min r m1 + t') - 1) + dL t')
+                       * Uc fadd fsub fmul fdiv au mm (r - Nat.min r m1 + t') (r - Nat.min r m1 + t))
+          = D0 (A := ARm fadd fsub fmul fdiv) mm m1 au0 r (r - Nat.min r m1 + t))%R).
+Print Assumptions band_lu_noswap_backward_error.
+(* the 2x2 system [[2,1],[1,3]] (m1 = m2 = 1): the pivot search keeps the diagonal *)
+Example band_lu_noswap_backward_error_nonvacuous :
+  (0 <= ux < 1)%R /\
+  (forall x y : R, exists d : R, (Rabs d <= ux)%R /\ xsub x y = ((x - y) * (1 + d))%R) /\
+  (forall x y : R, exists d : R, (Rabs d <= ux)%R /\ xmul x y = (x * y * (1 + d))%R) /\
+  (forall x y : R, y <> 0%R -> exists d : R, (Rabs d <= ux)%R /\ xdiv x y = (x / y * (1 + d))%R) /\
+  cols exn_au0 = 3 /\ (INR 1 * ux < 1)%R /\
+  for_ 0 2 (dec_step (A := AFlx) false 2 3) (exn_au0, @mat_new AFlx 2 1 0%R, repeat 0 2, 1%R, 1)
+    = Ok (exn_au, exn_al, [1; 2], 1%R, 2) /\
+  (forall k, k < 2 -> mat_at (A := AFlx) exn_au 3 k 0 <> 0%R) /\
+  (forall k, k < 2 -> nth k [1; 2] 0 = k + 1).
+Proof.
+  split; [exact ux_range|]. split; [exact xsub_ok|]. split; [exact xmul_ok|]. split; [exact xdiv_ok|].
+  split; [reflexivity|]. split; [exact exb_size1|]. split; [exact exn_loop|]. split; [exact exn_pivots|].
+  intros [|[|k]] Hk; try lia; reflexivity.
+Qed.
+
